@@ -102,6 +102,10 @@ def step (st : St) (line : String) : St × String :=
     -- `lfsc`: the store talks to the service through the LiteFS Cloud client; same service, same model
     let (e, o) := EngineD.step st.eng s!"open {r}"
     ({ st with eng := { e with backup := true } }, o)
+  -- a second database of the node (another name): it has a transaction / the service holds it at the
+  -- node's position after a sync; independent of "db", whose model is what follows
+  | ["xdb", _, _] => (st, if st.eng.opened then "ok" else "bad-op")
+  | ["xdb-check"] => (st, if st.eng.opened then "ok" else "bad-op")
   | ["backup-sync"] => if !st.eng.opened then (st, "bad-op") else sync st
   | ["reopen-loop"] =>
     let (e, o) := EngineD.step st.eng "reopen"
